@@ -23,6 +23,7 @@ RULE = (
     "group adjacent to the cut (v6), or an invalid string."
 )
 RULE += (" " + 'Networks are also written in other valid spellings (IPv4 dotted netmask, /32 without prefix; IPv6 upper case, exploded, uncompressed, dotted-quad tail).')
+RULE += (" For every network expand(w) with w in {%, .*} must equal expand() with the star re-spelled.")
 ASSUMPTIONS = [
     "python's ipaddress module defines network membership and the canonical compressed IPv6 text",
     "patterns are globs with '*' (any run) and '?' (one character) over the address text",
@@ -104,6 +105,12 @@ def check_case(case: dict) -> Outcome:
     if not patterns or not all(isinstance(p, str) for p in patterns):
         out.fail("C18:expand-shape", f"{cidr}: expand() returned {patterns!r}")
         return out
+    # the wildcard of the patterns is a parameter: any other wildcard gives the same patterns, re-spelled
+    for w in ("%", ".*"):
+        alt = item.value[0].expand(w)
+        if alt != [p.replace("*", w) for p in patterns]:
+            out.fail("C18:expand:wildcard-argument", f"{cidr}: expand({w!r}) = {alt[:6]}, expand() = {patterns[:6]}")
+            break
     if case.get("via_query"):
         q = _backend(False).convert_rule(_rule(cidr))
         got = [x.split("=", 1)[1].strip('"') for x in q[0].split(" or ")] if len(q) == 1 else None
